@@ -53,10 +53,13 @@ func runC08Case(seed int64, idx int, tier string) *c08Result {
 	// set once a Write failed inside a rotation that was made to fail (see the writer below)
 	var failedRotation atomic.Bool
 	fail := func(key, f string, a ...any) {
-		if failedRotation.Load() && (strings.HasPrefix(key, "snapshot/") || strings.HasPrefix(key, "monotone/")) && key != "snapshot/c04-hint-missing" {
+		if failedRotation.Load() && (foldedAfterFailedRotation[key] || strings.HasPrefix(key, "monotone/")) {
 			// one key for the whole class: what the playlists look like after a Write failed half-way
 			// through a rotation is one finding, whatever invariant a particular response breaks.
 			// Panics, races, stuck requests and differing bodies keep their own keys.
+			vmu.Lock()
+			res.obs["folded_into_after_failed_rotation/"+key]++
+			vmu.Unlock()
 			f, key = "after a Write failed inside a segment rotation: ["+key+"] "+f, "after-failed-rotation/inconsistent-view"
 		}
 		vmu.Lock()
@@ -722,4 +725,18 @@ func init() {
 		fmt.Println("held on this run (schedule dependent)")
 		return 0
 	}
+}
+
+// foldedAfterFailedRotation lists the single-playlist invariants the recorded finding
+// C08/after-failed-rotation/inconsistent-view names (part numbers jump, the hint is not the next
+// part, TARGETDURATION below the EXTINF that spans the hole, the init lags one change): only these
+// are filed under it. Every other invariant - PART-TARGET below a part duration, durations that do
+// not add up, a missing hint, ... - was never broken by the unchanged tree after a failed rotation
+// (3 600 thorough runs: c04-part-number 3 974, c03-target 882, c04-hint-wrong 242, init-stale 4,
+// nothing else) and keeps its own key.
+var foldedAfterFailedRotation = map[string]bool{
+	"snapshot/c04-part-number": true,
+	"snapshot/c03-target":      true,
+	"snapshot/c04-hint-wrong":  true,
+	"snapshot/init-stale":      true,
 }
